@@ -149,9 +149,11 @@ int main(int argc, char **argv) {
         std::string out;
         std::vector<char> buf(amount + 1);
         bool over = false; unsigned long calls = 0, zero_then_data = 0;
+        std::vector<std::size_t> sizes;
         for (;;) {
           std::size_t got = rc.Read(&buf[0], amount);
           ++calls;
+          sizes.push_back(got);
           if (got > amount) over = true;
           if (!got) break;
           out.append(&buf[0], got);
@@ -159,7 +161,9 @@ int main(int argc, char **argv) {
         // after the end every further Read must return 0
         for (int k = 0; k < 3; ++k) if (rc.Read(&buf[0], amount)) ++zero_then_data;
         printf("RC "); bytes_out(out.data(), out.size());
-        printf(" over=%d data_after_zero=%lu\n", (int)over, zero_then_data);
+        printf(" over=%d data_after_zero=%lu sizes=%zu:", (int)over, zero_then_data, sizes.size());
+        for (size_t i = 0; i < sizes.size() && i < 16; ++i) printf("%s%zu", i ? "," : "", sizes[i]);
+        printf("\n");
         continue;
       }
       if (!fp) { puts("not-open"); continue; }
